@@ -112,7 +112,10 @@ CLAIMED = {
         "generator expressions, index tuples containing slices, f-strings, yield/await are outside the proved "
         "core and are decided by CPython's parser on the exhaustive (parent,slot) x child compositions, every lambda signature, sampled "
         "depth-3 / deep / right-edge trees, standard-library expressions (support). The parser model is validated against ast.parse "
-        "through CPython's tokenizer; the printer of the theorem is checked equal to the unparser model's tokens on every core tree.",
+        "through CPython's tokenizer. C03_printer_is_unparser (ParseTie.tie_all, induction over the tree): the printer of the theorem IS the unparser model - "
+        "for every core tree the fragments Unparse.utoks emits, split into words, are exactly its tokens; C03_roundtrip_unparser_core_partial "
+        "states the round trip on the unparser model itself (the model tied to expr_unparse.py by string equality); the word splitting is "
+        "checked against CPython's tokenizer on the real unparser's text.",
    note=TRUST + "Parse.pc is a hand-written model of CPython's parser on the core (validated, not verified); literals are opaque tokens whose spelling is C04's theorem; tokenisation is CPython's.",
    technique="Coq proof (structural induction + simulation of a fuelled precedence-climbing parser, finite table checks by vm_compute) over the generated precedence tables + parser/printer correspondence with CPython + exhaustive composition round trips",
    ref="5/C03"),
